@@ -24,9 +24,22 @@ def hybrid_cases(tier):
                     yield {'extra': True, 'cfg': cfg, 'steps': steps}
 
 
+def payload_cases(tier):
+    """Rock Ridge name / symlink-target shapes of the C08 sweep (entries split over several SL / NM records and the
+    continuation area), UDF and Joliet names of the C10 / C09 sweeps: parse . record must be the identity for them too."""
+    from mc.props import c08
+    cfgs = c08.CFGS[:2] if tier == 'quick' else c08.CFGS
+    for cfg in cfgs:
+        for kind, payload in c08.sweep_cases(tier):
+            n = len(payload) if isinstance(payload, str) else len(payload[1])
+            if tier == 'quick' and kind != 'both' and not (90 <= n <= 140 or n % 7 == 0 or n < 6):
+                continue
+            yield {'extra': True, 'cfg': cfg, 'steps': c08.build_steps(cfg, 'N.;1', kind, payload)}
+
+
 def extra_tasks(tier):
-    cases = list(hybrid_cases(tier))
-    return [{'extra': True, 'cases': cases[i::16]} for i in range(16)]
+    cases = list(hybrid_cases(tier)) + list(payload_cases(tier))
+    return [{'extra': True, 'cases': cases[i::32]} for i in range(32)]
 
 
 def extra_run(task):
@@ -48,7 +61,7 @@ def check_extra(case):
 
 
 def coverage_extra(tier, r):
-    return {'hybrid_histories': r.n.get('hybrid_histories', 0), 'hybrid_refused': r.n.get('hybrid_refused', 0)}
+    return {'hybrid_and_payload_histories': r.n.get('hybrid_histories', 0), 'refused': r.n.get('hybrid_refused', 0)}
 
 
 B = _std.default_bounds()
